@@ -8,7 +8,9 @@
 2. TLC (MC_MolBuf) exhausts ALL small byte strings against small real schema types: WF(b) => Enc(Dec(b)) = b.
 3. R: harness/src/bin/c15.rs builds every value field by field through the generated builders and compares bytes,
    decoding, every hash function / cached view hash (spec terms evaluated with the real blake2b), the set of hashes
-   that move on every mutation pair, and the packed <-> JSON-RPC <-> text round trips.  Every small buffer is fed to
+   that move on every mutation pair, the packed <-> JSON-RPC <-> text round trips, and obtains every mutated
+   Transaction / Header / UncleBlock / Block view FROM THE BASE VIEW through as_advanced_builder() + the setters of the changed
+   fields (set/extend/push forms, field list from the schema) + build(): no cached hash may be stale.  Every small buffer is fed to
    the real strict decoder: same verdict, and accepted buffers are rebuilt field by field into the same bytes.
 """
 import glob
@@ -93,6 +95,8 @@ def run(tier):
         "JSON round trips are stated for structurally valid values (hash_type / dep_type bytes that name a variant, UTF-8 alert texts)",
         "view identities through into_view() are stated on self-consistent blocks (it normalises the header roots; judged under C16)",
         "vector lengths 0..2 (byte strings 0..3); integers 0, 1, max and a pattern",
+        "the view -> as_advanced_builder() -> setter -> build() path is stated for headers inside HeaderBuilder's documented domain "
+        "(compact_target > 0, well-formed epoch unless number 0); the others are skipped and counted",
     ]
     molgen_check()
     cfg = "MC_C15_quick.cfg" if tier == "quick" else "MC_C15_all.cfg"
@@ -101,7 +105,8 @@ def run(tier):
     if len(types) < 120:
         raise V.ToolError("only %d schema types enumerated" % len(types))
     summ = replay_values(c, recs)
-    if summ["records"] != len(recs) or summ["moved_nonempty"] < 200 or summ["json_checked"] < 300 or summ["hash_terms"] < 2000 or summ["older"] < 100:
+    if summ["records"] != len(recs) or summ["moved_nonempty"] < 200 or summ["json_checked"] < 300 or summ["hash_terms"] < 2000 or summ["older"] < 100 \
+            or summ["builder_paths"] < 300:
         raise V.ToolError("vacuous replay: %s" % summ)
     for r in recs:
         c.case([r["ty"], r["k"]], r["k"] == 1 or r["path"] != [])
@@ -122,11 +127,13 @@ def run(tier):
           "non-default base value through its small domain, at every depth for the hash-carrying types) and checks the model "
           "laws on them; every value is then replayed on the real builders, decoders (entity and reader API, strict and "
           "compatible), hash functions, views and JSON-RPC conversions (%d hash terms evaluated with the real blake2b, %d "
-          "mutation pairs compared with the commitment table, %d JSON round trips). Separately TLC exhausts all %d byte "
+          "mutation pairs compared with the commitment table, %d JSON round trips, %d views rebuilt from the base view through "
+          "the advanced builders' setters with every cached hash recomputed). Separately TLC exhausts all %d byte "
           "strings of a small buffer model against %d small real types (WF(b) => Enc(Dec(b)) = b) and each buffer is fed "
           "to the real strict decoder (same verdict; accepted buffers rebuilt field by field give the same bytes). Huge "
           "vectors and the JSON text format beyond what serde_json round-trips are not covered."
-          % (len(types), len(recs), summ["hash_terms"], summ["moved_pairs"], summ["json_checked"], sb["buffers"], sb["types"]))
+          % (len(types), len(recs), summ["hash_terms"], summ["moved_pairs"], summ["json_checked"], summ["builder_paths"], sb["buffers"],
+             sb["types"]))
     return c.finish()
 
 
